@@ -138,6 +138,10 @@ impl<'a> Writer<'a> {
         self.write_chunk_impl(DataKind::SnapshotDelta, Some(delta))
     }
     pub fn write_message(&mut self, msg: &[u8]) -> Result<(), WriteError> {
+        // The reader hands out messages in a buffer of `MAX_SNAPSHOT_SIZE`
+        // bytes; a longer message could be written (if it compresses well)
+        // but not read back.
+        assert!(msg.len() <= MAX_SNAPSHOT_SIZE, "overlong message");
         self.buffer2.clear();
         with_packer(
             &mut self.buffer2,
